@@ -82,6 +82,19 @@ def run(ctx):
                     try:
                         import contextlib
                         with (contextlib.nullcontext(shared) if shared is not None else SgzCropper(fi.path)) as c:
+                            # a cropper is a reader: header look-ups made on the object before (or between) crops must not
+                            # change what it writes
+                            pre = int(rng.integers(5))
+                            d['reads_before_crop'] = ['none', 'gen_trace_header', 'gen_trace_header(load_all)',
+                                                      'read_variant_headers(subset)', 'get_tracefield_values'][pre]
+                            if pre == 1:
+                                c.gen_trace_header(0)
+                            elif pre == 2:
+                                c.gen_trace_header(0, load_all_headers=True)
+                            elif pre == 3 and fi.arrays:
+                                c.read_variant_headers(tracefields=[sorted(fi.arrays)[-1]])
+                            elif pre == 4 and fi.arrays:
+                                c.get_tracefield_values(sorted(fi.arrays)[0])
                             if by_coord and kind == 'ok':
                                 axes = (fi.il, fi.xl, fi.z)
                                 def co(ax, r):
